@@ -26,9 +26,12 @@ CLAIMED = {
          'Partial. Theorems (closed under the global context): every route of the property (plain file, .gz, .xz, package directory '
          'with extra files, tar/tar.gz/tar.xz of the file or the package, tar of the gzipped file) yields exactly the one resource; '
          'an archive behaves as its single member and is rejected otherwise; a collection yields the packages of its package '
-         'directories; something that is neither WN-LMF nor an ILI file is rejected. Decompression, tar extraction, temporary '
-         'files, listing order, "adding again changes nothing", "an orphan extension is skipped" and "the input is not modified" '
-         'are runtime behaviour decided by the harness (file hashes, deep copies, canonical content per route).',
+         'directories; something that is neither WN-LMF nor an ILI file is rejected; over the model of add_lexical_resource '
+         '(Model/Add.v, tied to the code by the table-level correspondence of the C01/C05/C19 checks): adding lexicons that '
+         'are all installed changes nothing, an extension whose base is missing is skipped as a whole, and what is skipped '
+         'depends only on (id, version, extends). Decompression, tar extraction, temporary files, listing order and "the '
+         'input is not modified" (no Gallina counterpart: values are immutable) are runtime behaviour decided by the harness '
+         '(file hashes, deep copies, canonical content per route, base-then-extension sequences).',
          'Trusted: Coq kernel + vm_compute; gzip/xz/tar codecs and the file system (ideal in the model); lmf header check is a '
          'parameter of the model (its own model is Model/Lmf.v read_header).',
          'DESIGN.md section 5, C07'),
